@@ -19,7 +19,11 @@ def _make(c):
     from odc.geo.xr import wrap_xr, xr_coords
 
     h, w, ns = c["h"], c["w"], c["ns"]
-    gb = GeoBox.from_bbox((500000, 6000000 - h * 10, 500000 + w * 10, 6000000), "epsg:32633", resolution=10)
+    crs = c.get("crs", "32633")
+    if crs == "4326":
+        gb = GeoBox.from_bbox((14.0, 50.0 - h * 0.001, 14.0 + w * 0.001, 50.0), "epsg:4326", resolution=0.001)
+    else:
+        gb = GeoBox.from_bbox((500000, 6000000 - h * 10, 500000 + w * 10, 6000000), f"epsg:{crs}", resolution=10)
     if c["rot"]:
         gb = gb.rotate(10)
     dt = np.dtype(c["dtype"])
@@ -102,7 +106,7 @@ def execute(c):
             r["pixels_ok"] = bool(got.shape == base.shape and np.array_equal(np.sort(got.reshape(got.shape[0], -1), axis=0), np.sort(base.reshape(base.shape[0], -1), axis=0), equal_nan=True))
             r["band_order_ok"] = bool(got.shape == base.shape and np.array_equal(got, base, equal_nan=True))
             r["transform_ok"] = bool(all(abs(a - b) <= 1e-9 * max(1.0, abs(b)) for a, b in zip(f.transform[:6], gb.affine[:6])))
-            r["crs_ok"] = bool(f.crs is not None and f.crs.to_epsg() == 32633)
+            r["crs_ok"] = bool(f.crs is not None and f.crs.to_epsg() == int(c.get("crs", "32633")))
             nd = c["nodata"][0] if c["nodata"] else None
             r["nodata_ok"] = bool((f.nodata is None and nd is None) or (f.nodata is not None and nd is not None and float(f.nodata) == float(nd)))
         with tifffile.TiffFile(io.BytesIO(data)) as tf:
